@@ -1,3 +1,4 @@
+import Utv.GenEq.Support
 import Utv.Gen.Tables
 import Utv.Gen.CodecTables
 import Utv.Model.C14
@@ -15,6 +16,7 @@ theorem C14_gen_tables :
     FALSE_VALUES = Tables.FALSE_VALUES.map String.toList ∧
     TRUE_VALUES = Tables.TRUE_VALUES.map String.toList ∧
     (maxSafe : Int) = CodecTables.MAX_SAFE_NUMBER ∧ -(maxSafe : Int) = CodecTables.MIN_SAFE_NUMBER := by
-  refine ⟨?_, ?_, ?_, ?_, ?_, ?_, ?_⟩ <;> decide
+  gen_obligation "C14_gen_tables: the regenerated code (Utv.Gen) is no longer equal to the hand model here" by
+    refine ⟨?_, ?_, ?_, ?_, ?_, ?_, ?_⟩ <;> decide
 
 end Utv.GenEq.C14
